@@ -153,7 +153,7 @@ GEN_PROFILES = {
                 opts=[dict(tsp="CODE", tsw="WARN"), dict(tsp="DOCSTRING", tsw="WARN"), dict(tsp="DOCSTRING", tsw="IGNORE")]),
     "C08": dict(gen=dict(private_rate=0.25, unique_top_names=False, ties=0.5, infer_returns=0.4, doc_types="mixed"), opts=[dict()]),
     "C01": dict(gen=dict(kw_rate=0.03, docs=0.5, test_dirs=True, unique_top_names=False, ties=0.3, infer_returns=0.3,
-                         doc_types="mixed"),
+                         doc_types="mixed", aliases=0.4),
                 opts=[dict(test_run=True, tsp="DOCSTRING"), dict()]),
     "C03": dict(gen=dict(private_rate=0.3), opts=[dict()]),
     "C05": dict(gen=dict(docs=0.0, infer_returns=0.0), opts=[dict()]),
